@@ -3,6 +3,7 @@ import Pypika.RenderTerm
 import Pypika.Param
 import Pypika.Ident
 import Pypika.Crit
+import Pypika.Build
 /-!
 # JSON → model values (driver side only; no theorem depends on this file)
 -/
@@ -237,6 +238,21 @@ def dTbl (j : Json) : D Tbl := do
   let chain ← (← fArr j "schema").mapM jStr
   pure { name := ← fStr j "name", schema := schOfChain chain, alias := ← fOptStr j "alias",
          for_ := ← fOptStr j "for", forPortion := ← fOptStr j "for_portion" }
+
+def dCall (j : Json) : D C08.Call := do
+  let k ← (fld j "k").getStr?
+  let n (key : String) : D Nat := (fld j key).getNat?
+  let tabs : D (List Nat) := do (← fArr j "tabs").mapM (·.getNat?)
+  match k with
+  | "select" => pure (.select (← n "id")) | "from_" => pure (.from_ (← n "id"))
+  | "join" => pure (.join (← n "id") (← n "tbl"))
+  | "where" => pure (.where_ (← n "id") (← tabs)) | "prewhere" => pure (.prewhere (← n "id") (← tabs))
+  | "having" => pure (.having (← n "id")) | "groupby" => pure (.groupby (← n "id")) | "orderby" => pure (.orderby (← n "id"))
+  | "limit" => pure (.limit (← n "id")) | "offset" => pure (.offset (← n "id"))
+  | "distinct" => pure .distinct | "for_update" => pure .forUpdate | "with_" => pure (.with_ (← n "id"))
+  | "force_index" => pure (.forceIndex (← n "id")) | "use_index" => pure (.useIndex (← n "id"))
+  | "set" => pure (.set (← n "id")) | "columns" => pure (.columns (← n "id")) | "insert" => pure (.insert (← n "id"))
+  | s => throw s!"call kind {s}"
 
 def dStyle (s : String) : D ParamStyle :=
   match s with
